@@ -201,6 +201,8 @@ def value_nodes():
         st.uuids().map(lambda u: ["pyv", "uuid", str(u)]),
         st.sampled_from(["color_red", "color_num", "int_one"]).map(lambda n: ["enumv", n]),
         json_values().map(lambda v: ["raw", v]),
+        # JSON-serialisable documents a JSON file cannot carry as they are: non-str keys, tuples
+        st.sampled_from(["{1: 'a'}", "{'ids': (1, 2)}", "{None: 1, True: 2}", "{'k': ('x', \"it's\")}", "[(1, 'a'), {2.5: None}]", "{7: {8: (9,)}}"]).map(lambda t: ["pyv", "literal", t]),
     )
 
 
@@ -332,7 +334,7 @@ def expected_matches(v, group, cls, pos):
         return tok.value == str(v)
     if isinstance(v, (dict, list)):
         try:
-            return json.loads(tok.value) == v
+            return json.loads(tok.value) == json.loads(json.dumps(v))  # (non-str keys and tuples become what JSON makes of them)
         except ValueError:
             return False
     return False
@@ -382,7 +384,7 @@ def check_value(cls, pos, vnode):
         ok = len(group) == 1 and group[0].kind == "str" and "nul" not in group[0].flags
         if ok:
             try:
-                ok = json.loads(group[0].value) == v
+                ok = json.loads(group[0].value) == json.loads(json.dumps(v))
             except ValueError:
                 ok = False
         if not ok:
